@@ -1838,14 +1838,14 @@ def unit_walk(inj, scratch):
         prelude = H('frag_walk_prelude.rs').replace('/*FS_TABLES*/', tables).replace('/*FS_PATHS*/', paths.strip())
         return ('pub mod ' + name + ' {\npub mod world {\n' + prelude + '\nimpl Searcher {\n// ---- verbatim: fn visit_dir ----\npub ' + gen
                 + '\n// ---- verbatim: fn ok_to_visit_dir (unix) ----\npub ' + okfn + '\n}\n}\n' + H(harness_file) + '\n}\n')
-    # two scripted file systems: six plain nodes (depth windows, order, limits), ten nodes with symlinks (C18)
+    # two scripted file systems: six plain nodes (depth windows, order, limits), 13 nodes with symlinks (C18)
     text = module('walk', 'frag_walk_fs6.rs', 'frag_walk.kani.rs') + module('walk18', 'frag_walk_fs10.rs', 'frag_walk18.kani.rs')
     inj.new_file(FRAG_FILE, text)
     r, d = frag_record('walk::Searcher::visit_dir', 'src/searcher.rs', 'impl Searcher / fn visit_dir (whole function incl. signature, verbatim, as a method of a shim Searcher)', whole, gen,
                        ren + ['Path / PathBuf / DirEntry / FileType / fs::read_dir / read_link / File / zip / git2::Repository / ignore filters / HashSet / VecDeque -> a scripted six-node file system and heap-free stand-ins with the same method names; '
                               'check_file -> recorder that counts in `found`; ok_to_visit_dir is copied verbatim as well (entry.ino() = node id)'],
                        'the OS (readdir order, errors, symlinks), archives, ignore files; check_file (C06.found.accounting, C07.columns.evaluated) and ok_to_visit_dir (C01.ok_to_visit) themselves')
-    return dict(functions=[r], dropped=[d], assumptions=['two scripted file systems: six nodes (three levels, one two-member zip archive) for windows / order / limits; ten nodes adding a link to an ancestor with an absolute target and a link with a relative target to a directory outside and less deep than the root; no ignore rules, no I/O errors'])
+    return dict(functions=[r], dropped=[d], assumptions=['two scripted file systems: six nodes (three levels, one two-member zip archive) for windows / order / limits; 13 nodes adding a link to an ancestor with an absolute target, a link with a relative target to a directory outside and less deep than the root, a link to the root itself, a link to a file and a dangling link; no ignore rules, no I/O errors'])
 
 
 def unit_rowflow(inj, scratch):
